@@ -70,6 +70,7 @@ def make_job_fn(check):
         vseed = job["seed"]
         prop = check.PROP
         rng = random.Random(run_seed(vseed, prop + "/workload", j))
+        rng.job_index = j
         wl = check.gen_workload(rng, tier)
         ctx = Ctx(wl)
         stats = {
@@ -78,6 +79,8 @@ def make_job_fn(check):
             "skipped": Counter(), "entry": wl["entry"], "tasks": 0, "samples": [],
             "digests": [], "wall": 0.0, "clauses": Counter(),
         }
+        if hasattr(check, "workload_meta"):
+            stats["meta"] = check.workload_meta(wl)
         t0 = time.time()
         budget = job.get("wall_budget", 60.0)
         if hasattr(check, "prepare"):
@@ -335,6 +338,8 @@ def conclude(check, tier, seed, results, timer, extra_coverage=None):
     stuck = [k for k in getattr(check, "EXPECTED_PROBES", []) if not probes.get(k) and not fired.get(k)]
     if stuck:
         coverage["probes_stuck_at_zero"] = stuck
+    if hasattr(check, "extra_coverage"):
+        coverage.update(check.extra_coverage(results))
     if extra_coverage:
         coverage.update(extra_coverage)
     report.write_evidence(prop, tier, seed, coverage, wall, len(new_by_key), check.ASSUMPTIONS)
